@@ -4,6 +4,10 @@ base = json.load(open("/root/.vp/BASELINE.json"))
 out = tempfile.mktemp(suffix=".xml", dir="/tmp")
 env = dict(os.environ); env.pop("MAGPYLIB_VERIF", None)
 cmd = base["cmd"].replace("<file>", out)
+repo = os.environ.get("VF_REPO", "/repo")
+if repo != "/repo":
+    cmd = cmd.replace("cd /repo", f"cd {repo}")
+    env["PYTHONPATH"] = repo
 r = subprocess.run(cmd, shell=True, env=env, capture_output=True, text=True)
 passed = set()
 for tc in ET.parse(out).getroot().iter("testcase"):
